@@ -207,7 +207,75 @@ fn check_type_options(idx: u64, l: &mut Local) {
     }
 }
 
+/// Rules arriving on a live blocker: `Blocker::new([r1])`, a first round of queries, then
+/// `add_filter(r2)` (and `add_filter(r3)`), then the queries again. After every step the rewrite is
+/// the one of the rules loaded so far (expectation from `removes`, the option semantics).
+fn check_incremental(idx: u64, l: &mut Local) {
+    use adblock::blocker::{Blocker, BlockerOptions};
+    use adblock::filters::network::NetworkFilter;
+    let rp: Vec<&'static str> = POOL.iter().copied().filter(|r| r.contains("removeparam")).collect();
+    let n = rp.len() as u64;
+    let (a, b, c) = ((idx % n) as usize, (idx / n % n) as usize, (idx / n / n) as usize);
+    // c == n: no third rule
+    let mut order: Vec<&'static str> = vec![rp[a], rp[b]];
+    if c < rp.len() {
+        order.push(rp[c]);
+    }
+    if order[0] == order[1] || (order.len() == 3 && (order[2] == order[0] || order[2] == order[1])) {
+        return;
+    }
+    let parse = |r: &str| NetworkFilter::parse(r, true, Default::default()).ok();
+    let res = adblock::resources::ResourceStorage::default();
+    let built = vh::util::catch(|| Blocker::new(parse(order[0]).into_iter().collect(), &BlockerOptions { enable_optimizations: idx % 2 == 0 }));
+    let mut blocker = match built {
+        Ok(b) => b,
+        Err(_) => return,
+    };
+    l.states += 1;
+    let suffixes = ["?a=1", "?b=1", "?a=1&b=2", "?utm=1&a=2", "?c=3&utm=4", "?c=3"];
+    for step in 0..order.len() {
+        if step > 0 {
+            if let Some(f) = parse(order[step]) {
+                let _ = blocker.add_filter(f);
+            }
+        }
+        let loaded = &order[..=step];
+        for suffix in suffixes {
+            for ty in TYPES {
+                for src in SOURCES {
+                    let url = format!("{}{}", BASE, suffix);
+                    let req = match Request::new(&url, src, ty) {
+                        Ok(r) => r,
+                        Err(_) => continue,
+                    };
+                    l.evaluations += 1;
+                    l.transitions += 1;
+                    l.compared += 1;
+                    let names: Vec<String> = loaded.iter().filter_map(|r| removes(r, ty, src)).map(|n| n.to_string()).collect();
+                    let exp = ns::spec_removeparam(&url, &names);
+                    let got = vh::util::catch(|| blocker.check(&req, &res).rewritten_url);
+                    if exp.is_some() {
+                        l.nontrivial += 1;
+                    }
+                    if got.as_ref().ok() != Some(&exp) {
+                        l.mismatch(Mismatch {
+                            sig: format!("c14.incremental.step{}", step),
+                            what: format!("blocker built from {:?}, then add_filter of {:?}; after step {} request {} ({}, {}): expected {:?}, got {:?}", order[0], &order[1..], step, url, ty, src, exp, got),
+                            case: json!({"incremental_index": idx}),
+                            size: idx,
+                        });
+                        return;
+                    }
+                }
+            }
+        }
+    }
+}
+
 fn replay(case: &Value, l: &mut Local) {
+    if let Some(i) = case["incremental_index"].as_u64() {
+        return check_incremental(i, l);
+    }
     if let Some(i) = case["type_options_index"].as_u64() {
         return check_type_options(i, l);
     }
@@ -343,13 +411,15 @@ fn check(ctx: &Ctx) -> i32 {
             }
         });
     });
+    let nrp = POOL.iter().filter(|r| r.contains("removeparam")).count() as u64;
+    ctx.par_range("rules added to a live blocker", nrp * nrp * (nrp + 1), 16, |i, l| check_incremental(i, l));
     let nl = type_option_lists().len() as u64;
     ctx.bound("type_option_lists", nl);
     ctx.bound("type_option_request_types", json!(TYPE_REQS.iter().map(|t| t.0).collect::<Vec<_>>()));
     ctx.par_range("type options", nl * 4, 8, |i, l| check_type_options(i, l));
     ctx.finish(
         "model_checking",
-        "URL = https://x.com/p + every string of length <= n over {?,#,&,=,a,b,é}; x every subset of <= 2 (quick) / <= 3 (thorough; sets of 2 and 3 on suffixes up to n-1) rules of the 11-rule pool (+ four fixed triples in the quick tier); a second sweep one symbol shallower over the alphabet extended with an upper-case key and the multi-character key `utm` (engines built once per worker thread) x 5 request types x 2 initiators; a third sweep two symbols shallower behind 6 other spellings of the base (scheme case, empty userinfo, default port, IDN label, dot segments: the caller's spelling must survive); a fourth sweep over every list of request-type options of a menu (15 spellings alone and negated, ordered pairs of 5 types positive / negated / mixed) before and after `removeparam=a` on 2 patterns x 16 request type strings x 2 initiators, expectation written from the option semantics; non-trivial = the engine reported a rewritten URL; states = engines built, transitions = requests checked, every one compared byte for byte with the reference",
+        "URL = https://x.com/p + every string of length <= n over {?,#,&,=,a,b,é}; x every subset of <= 2 (quick) / <= 3 (thorough; sets of 2 and 3 on suffixes up to n-1) rules of the 11-rule pool (+ four fixed triples in the quick tier); a second sweep one symbol shallower over the alphabet extended with an upper-case key and the multi-character key `utm` (engines built once per worker thread) x 5 request types x 2 initiators; a third sweep two symbols shallower behind 6 other spellings of the base (scheme case, empty userinfo, default port, IDN label, dot segments: the caller's spelling must survive); a sweep over every ordered pair / triple of the pool's removeparam rules arriving one by one on a live blocker (queries after every step); a sweep over every list of request-type options of a menu (15 spellings alone and negated, ordered pairs of 5 types positive / negated / mixed) before and after `removeparam=a` on 2 patterns x 16 request type strings x 2 initiators, expectation written from the option semantics; non-trivial = the engine reported a rewritten URL; states = engines built, transitions = requests checked, every one compared byte for byte with the reference",
         &["per-rule applicability is taken from the real public matcher (differential), the rewrite itself from the independent reference"],
     )
 }
